@@ -99,6 +99,61 @@ class PlantedGen(np.random.Generator):
 
 
 # ----------------------------------------------------------------------------
+# kept results, aliasing, unchanged inputs
+
+
+def bits(a):
+    a = np.asarray(a)
+    return (a.shape, a.dtype.str, a.tobytes())
+
+
+class Keeper:
+    """every array a call returned is kept together with a copy of its bits at return time and re-judged
+    later: it must be bitwise unchanged, whatever was called or assigned afterwards"""
+
+    def __init__(self, cap=400):
+        self.kept, self.cap, self.checked = [], cap, 0
+
+    def keep(self, what, arr):
+        if isinstance(arr, np.ndarray):
+            self.kept.append((what, arr, bits(arr)))
+            if len(self.kept) > self.cap:
+                self.kept.pop(0)
+
+    def recheck(self, ctx, when):
+        for what, arr, b in self.kept:
+            self.checked += 1
+            if bits(arr) != b:
+                ctx.spec_fail("kept_result_changed", "the array returned by %s changed after %s" % (what, when),
+                              {"op": what, "after": when, "at_return": repr(np.frombuffer(b[2], dtype=b[1])[:20]),
+                               "now": repr(arr.ravel()[:20])})
+
+    def aliases(self, ctx, what, new, others, replay):
+        """`new` (a returned array) must not share memory with inputs, object arrays or earlier results"""
+        if not isinstance(new, np.ndarray):
+            return
+        for name, o in list(others) + [("the result of an earlier call (%s)" % w, a) for w, a, _ in self.kept[-40:]]:
+            if isinstance(o, np.ndarray) and o is not new and np.shares_memory(new, o):
+                ctx.spec_fail("result_aliases", "the array returned by %s shares memory with %s" % (what, name),
+                              dict(replay or {}, aliased_with=name))
+
+
+KEEP = Keeper()
+
+
+class Unchanged:
+    """snapshot of arrays that a call must leave bitwise unchanged"""
+
+    def __init__(self, named):
+        self.items = [(n, a, bits(a)) for n, a in named if isinstance(a, np.ndarray)]
+
+    def check(self, ctx, what, replay):
+        for n, a, b in self.items:
+            if bits(a) != b:
+                ctx.spec_fail("input_modified", "%s modified %s" % (what, n), dict(replay or {}, modified=n))
+
+
+# ----------------------------------------------------------------------------
 # independent oracle (plain Python floats, linear scans, the definitions)
 
 
@@ -298,7 +353,7 @@ def array_form(rng, l, ctx):
     """(object, kind) for the list of ints l"""
     nonneg = all(i >= 0 for i in l)
     small = all(-128 <= i < 128 for i in l)
-    forms = ["list", "tuple", "int64", "int32", "int16", "intp", "npscalars", "0d-list"]
+    forms = ["list", "tuple", "int64", "int32", "int16", "intp", "npscalars", "0d-list", "strided-view", "reversed-view"]
     if small:
         forms.append("int8")
     if nonneg and all(i < 256 for i in l):
@@ -315,6 +370,12 @@ def array_form(rng, l, ctx):
         return list(l), "a"
     if f == "tuple":
         return tuple(l), "a"
+    if f == "strided-view":
+        big = np.full(3 * len(l) + 1, -99, dtype=np.int64)
+        big[1::3] = l
+        return big[1::3], "a"
+    if f == "reversed-view":
+        return np.array(l[::-1], dtype=np.int64)[::-1], "a"
     if f == "npscalars":
         ts = [np.int16, np.int32, np.int64, np.intp] + ([np.int8] if small else []) + ([np.uint8] if nonneg and all(i < 256 for i in l) else [])
         return [rng.choice(ts)(i) for i in l], "a"
@@ -387,14 +448,28 @@ def observe(ctx, name, what, replay):
 # one simulation case
 
 
+def seq_cumsum_dt(p, dt):
+    """sequential cumulative sum accumulated in dtype dt; values returned as (exact) Python floats"""
+    if dt == np.float32:
+        out, acc = [], None
+        for x in p:
+            acc = np.float32(x) if acc is None else np.float32(acc + np.float32(x))
+            out.append(float(acc))
+        return out
+    return seq_cumsum(p)
+
+
 class Chain:
     """a chain as the kernels see it: rows of (columns, masses, cumulative sums)"""
 
-    def __init__(self, mc):
+    def __init__(self, mc, given=None):
         self.mc = mc
         self.n = mc.n
         self.sparse = mc.is_sparse
+        self.given = given            # the object the user passed as P (for aliasing / unchanged-input checks)
         if mc.is_sparse:
+            self.f32 = mc.P.data.dtype == np.float32
+            dt = mc.P.data.dtype.type
             self.data = [float(x) for x in mc.P.data]
             self.indices = [int(x) for x in mc.P.indices]
             self.indptr = [int(x) for x in mc.P.indptr]
@@ -402,19 +477,52 @@ class Chain:
             for s in range(self.n):
                 lo, hi = self.indptr[s], self.indptr[s + 1]
                 p = self.data[lo:hi]
-                self.rows.append((self.indices[lo:hi], p, seq_cumsum(p)))
+                self.rows.append((self.indices[lo:hi], p, seq_cumsum_dt(p, dt)))
         else:
             P = np.asarray(mc.P)
+            self.f32 = P.dtype == np.float32
             self.P = [[float(x) for x in r] for r in P]
-            self.rows = [(list(range(self.n)), r, seq_cumsum(r)) for r in self.P]
+            self.rows = [(list(range(self.n)), r, seq_cumsum_dt(r, P.dtype.type)) for r in self.P]
+
+    def object_arrays(self):
+        mc = self.mc
+        out = [("the matrix passed to the constructor", self.given)]
+        if self.sparse:
+            out += [("mc.P.data", mc.P.data), ("mc.P.indices", mc.P.indices), ("mc.P.indptr", mc.P.indptr),
+                    ("the cdfs1d cache", mc._cdfs1d)]
+            if sparse.issparse(self.given):
+                for att in ("data", "indices", "indptr", "row", "col"):
+                    out.append(("the %s array of the sparse matrix passed to the constructor" % att, getattr(self.given, att, None)))
+        else:
+            out += [("mc.P", mc.P), ("the cdfs cache", mc._cdfs)]
+        out.append(("mc.state_values", mc.state_values))
+        return [(n, a) for n, a in out if isinstance(a, np.ndarray)]
 
     def wire(self, sc):
         f = fxs if sc == "float" else rats
         fm = fxm if sc == "float" else ratm
         if self.sparse:
-            return "sparse sc=%s n=%d data=%s indices=%s indptr=%s" % (
+            w = "sparse sc=%s n=%d data=%s indices=%s indptr=%s" % (
                 sc, self.n, f(self.data), ints(self.indices), ints(self.indptr))
-        return "dense sc=%s P=%s" % (sc, fm(self.P))
+            if self.f32:      # accumulated in float32 by the code: the model is given the sums (checked by the oracle)
+                w += " c1d=" + f([float(x) for x in self.mc.cdfs1d])
+            return w
+        w = "dense sc=%s P=%s" % (sc, fm(self.P))
+        if self.f32:
+            w += " cdfs=" + fm([[float(x) for x in r] for r in self.mc.cdfs])
+        return w
+
+    def check_cdfs(self, ctx):
+        """the cumulative sums the code caches are the sequential sums in the matrix's own precision"""
+        if self.sparse:
+            got = [float(x) for x in self.mc.cdfs1d]
+            want = [c for _, _, cdf in self.rows for c in cdf]
+        else:
+            got = [float(x) for r in self.mc.cdfs for x in r]
+            want = [c for _, _, cdf in self.rows for c in cdf]
+        if got != want:
+            ctx.spec_fail("cdfs_not_cumsum", "cdfs differ from the row-wise sequential cumulative sums",
+                          {"op": "cdfs", "sparse": self.sparse, "got": [x.hex() for x in got], "want": [x.hex() for x in want]})
 
     def code_cdfs(self, sc):
         if self.sparse:
@@ -483,22 +591,47 @@ def sim_case(ctx, ch, arg, reps, ts, via, dyadic, cases, tagbase, fixed_u=None, 
     if fallback_steps:
         ctx.count("step:u>=cdf[-1]", fallback_steps)
 
+    # how the optional arguments are passed
+    styles = ["keyword", "positional"]
+    if reps is None:
+        styles.append("num_reps-omitted")
+    if init is None:
+        styles.append("init-omitted")
+        if reps is None:
+            styles.append("only-ts_length")
+    style = rng.choice(styles)
+    ctx.count("call-style:" + style)
+    raws = []
+    guard = Unchanged(ch.object_arrays() + [("the init argument", init), ("the planted uniforms", Uarr)])
+
     def call(interpreted=False):
         rs = (PlantedGen if use_gen else Planted)(
             uniforms=[Uarr], integers=[np.array(drawn, dtype=np.int64)] if init is None else [])
         f = ch.mc.simulate if via == "simulate" else ch.mc.simulate_indices
+
+        def invoke():
+            if style == "positional":
+                return f(ts_obj, init, reps_obj, rs)
+            if style == "num_reps-omitted":
+                return f(ts_obj, init=init, random_state=rs)
+            if style == "init-omitted":
+                return f(ts_obj, num_reps=reps_obj, random_state=rs)
+            if style == "only-ts_length":
+                return f(ts_obj, random_state=rs)
+            return f(ts_length=ts_obj, init=init, num_reps=reps_obj, random_state=rs)
         try:
             if interpreted:
                 with interpreted_kernels():
-                    X = f(ts_obj, init=init, num_reps=reps_obj, random_state=rs)
+                    X = invoke()
             else:
-                X = f(ts_obj, init=init, num_reps=reps_obj, random_state=rs)
+                X = invoke()
         except ValueError:
             return "ERR:ValueError", None, rs
         except IndexError:
             return "ERR:IndexError", None, rs
         except MemoryError:
             return "ERR:MemoryError", None, rs
+        raws.append(X)
         X = np.asarray(X)
         if sv is not None and via == "simulate":
             X = np.array([code_of(v) for v in X.ravel()], dtype=np.int64).reshape(X.shape)   # labels -> codes
@@ -588,9 +721,17 @@ def sim_case(ctx, ch, arg, reps, ts, via, dyadic, cases, tagbase, fixed_u=None, 
         out2, _, _ = call(interpreted=unsafe)
         if out2 != out:
             ctx.spec_fail(key + "_determinism", "same uniforms, different paths", replay)
+    # ---- aliasing, unchanged inputs, kept results ----
+    what = "%s(%s)" % ("simulate" if via == "simulate" else "simulate_indices", init_wire)
+    guard.check(ctx, what, replay)
+    others = ch.object_arrays() + [("the init argument", init if isinstance(init, np.ndarray) else None)]
+    for r_ in raws:
+        KEEP.aliases(ctx, what, r_, others, replay)
+        KEEP.keep(what, r_)
+    KEEP.recheck(ctx, what)
     # ---- correspondence ----
     nontrivial = (exp != "ERR" and ts >= 2 and k >= 1)
-    scs = ["float"] + (["rat"] if dyadic else [])
+    scs = ["float"] + (["rat"] if dyadic and not ch.f32 else [])
     toks = None
     for sc in scs:
         t = "init=%s reps=%s drawn=%s via=%s ts=%d u=%s" % (
@@ -624,7 +765,101 @@ class interpreted_kernels:
         return False
 
 
+def rows_acceptable(rows, slack=1e-9):
+    """exact reading of the constructor's requirement; None when a row sum is too close to the tolerance
+    boundary for the exact test and the double test to be comparable"""
+    from fractions import Fraction
+    tol = Fraction(1, 10 ** 8) + Fraction(1, 10 ** 5)
+    ok = True
+    for r in rows:
+        d = abs(sum(Fraction(float(x)) for x in r) - 1)
+        if abs(d - tol) < Fraction(slack):
+            return None
+        ok = ok and d <= tol and all(x >= 0 for x in r)
+    return ok
+
+
+def construct(ctx, MarkovChain, given, rows):
+    """MarkovChain(given), judged: a matrix that meets the documented requirement must be accepted in every
+    form / format, one that does not must be refused"""
+    f32 = getattr(given, "dtype", None) == np.float32       # row sums are then accumulated in float32
+    want = rows_acceptable(rows, 2e-6 if f32 else 1e-9)
+    try:
+        mc = MarkovChain(given)
+    except ValueError:
+        mc = None
+    if want is not None and (mc is not None) != want:
+        ctx.spec_fail("constructor_checks", "MarkovChain(<%s>) %s, the requirement says %s" % (
+            type(given).__name__, "accepted" if mc is not None else "raised ValueError", "accept" if want else "refuse"),
+            {"op": "MarkovChain", "form": type(given).__name__, "P": [[float(x).hex() for x in r] for r in rows]})
+    if mc is None:
+        ctx.count("constructor-rejected")
+    return mc
+
+
+def dense_form(rng, rows, ctx):
+    """the matrix as list / tuple / ndarray in C or F order / strided, transposed or reversed view / float32"""
+    A = np.array(rows)
+    n = len(rows)
+    f = rng.choice(["C", "C", "F", "list", "tuple", "strided", "transposed-view", "reversed-view", "float32", "float32-F"])
+    ctx.count("form:P:" + f)
+    if f == "C":
+        return A
+    if f == "F":
+        return np.asfortranarray(A)
+    if f == "list":
+        return [list(r) for r in rows]
+    if f == "tuple":
+        return tuple(tuple(r) for r in rows)
+    if f == "strided":
+        big = np.full((2 * n, 3 * n), 7.0)
+        big[::2, ::3] = A
+        return big[::2, ::3]
+    if f == "transposed-view":
+        return np.ascontiguousarray(A.T).T
+    if f == "reversed-view":
+        return np.ascontiguousarray(A[::-1, ::-1])[::-1, ::-1]
+    if f == "float32":
+        return A.astype(np.float32)
+    return np.asfortranarray(A.astype(np.float32))
+
+
 def make_sparse(rng, rows, ctx):
+    """the matrix in a sparse format: CSR (canonical or hand-built), CSC, COO (also with duplicate entries),
+    LIL, sparse arrays, int64 index arrays, float32 data"""
+    m = make_csr(rng, rows, ctx)
+    f = rng.choice(["csr", "csr", "csr", "csc", "coo", "coo-duplicates", "lil", "csr_array", "coo_array", "int64-indices",
+                    "float32"])
+    ctx.count("form:sparse:" + f)
+    if f == "csc":
+        return m.tocsc()
+    if f == "coo":
+        return m.tocoo()
+    if f == "coo-duplicates":
+        c = m.tocoo()
+        if c.nnz:
+            j = rng.randrange(c.nnz)          # split one entry into two halves (summed by the CSR conversion)
+            data = np.concatenate([c.data, [c.data[j] / 2]])
+            data[j] = c.data[j] / 2
+            return sparse.coo_matrix((data, (np.concatenate([c.row, [c.row[j]]]), np.concatenate([c.col, [c.col[j]]]))),
+                                     shape=c.shape)
+        return c
+    if f == "lil":
+        return m.tolil()
+    if f == "csr_array":
+        return sparse.csr_array(m)
+    if f == "coo_array":
+        return sparse.coo_array(m.tocoo())
+    if f == "int64-indices":
+        m.indices = m.indices.astype(np.int64)
+        m.indptr = m.indptr.astype(np.int64)
+        return m
+    if f == "float32":
+        return m.astype(np.float32)
+    return m
+
+
+def make_csr(rng, rows, ctx):
     """CSR matrix for the rows; sometimes hand-built with explicit zeros / unsorted columns"""
     n = len(rows)
     if rng.random() < 0.4:
@@ -686,7 +921,17 @@ def run(ctx):
                 "ARGUMENT FORMS: init as Python int/bool, np.int8..int64, uint8/uint64, intp, 0-d arrays, np.bool_, floats, "
                 "lists/tuples/arrays of every integer dtype, lists of NumPy scalars and of 0-d arrays, bool and float arrays; "
                 "ts_length/num_reps/sample_size/k as NumPy ints and 0-d arrays; the number and shape of the random numbers "
-                "consumed must be exactly the documented ones (recording stream, no leftovers)")
+                "consumed must be exactly the documented ones (recording stream, no leftovers). "
+                "Hardening round: every returned array is KEPT with a copy of its bits and re-judged after every later call / "
+                "assignment (kept_result_changed); np.shares_memory of every result with the inputs, the object's arrays "
+                "(P, CSR arrays, cdf caches, state_values, q, Q) and earlier results (result_aliases); every input and object "
+                "array bitwise unchanged after every call (input_modified); P as list/tuple/C/F/strided/transposed/reversed "
+                "views/float32/integer/bool dtypes; sparse input as csr/csc/coo(+duplicates)/lil/csr_array/coo_array, int64 "
+                "index arrays, float32 data, stored zeros, each judged against the exact constructor requirement "
+                "(constructor_checks) and cdfs against the sequential sums in the matrix's precision; optional arguments "
+                "omitted / positional / keyword for simulate*, mc_sample_path (defaults init=0, sample_size=1000), "
+                "DiscreteRV.draw, random.draw; q and cdf as list/tuple/array/strided/reversed/float32; histories on one "
+                "DiscreteRV object (assignments to .q between draws; drvhist)")
     ctx.assumptions.append("NumPy's RandomState reproducibility (equal seeds give equal streams) is trusted; the harness "
                            "injects the uniforms through a RandomState subclass, so the model sees the numbers the kernel saw")
 
@@ -709,16 +954,25 @@ def run(ctx):
         for sp in (False, True):
             try:
                 if sp:
-                    mc = MarkovChain(make_sparse(rng, rows, ctx))
+                    given = make_sparse(rng, rows, ctx)
                 elif dyadic and rng.random() < 0.1 and all(x in (0.0, 1.0) for r in rows for x in r):
-                    mc = MarkovChain(np.array(rows, dtype=int))
+                    given = np.array(rows, dtype=rng.choice([int, np.int32, np.uint8, bool]))
                     ctx.count("P:integer-dtype")
                 else:
-                    mc = MarkovChain(np.array(rows))
+                    given = dense_form(rng, rows, ctx)
+                pguard = Unchanged([("the matrix passed to the constructor", given)] + (
+                    [("its %s array" % a_, getattr(given, a_, None)) for a_ in ("data", "indices", "indptr", "row", "col")]
+                    if sparse.issparse(given) else []))
+                rows_eff = np.asarray(given.todense() if sparse.issparse(given) else given, dtype=float).tolist()
+                mc = construct(ctx, MarkovChain, given, rows_eff)
             except ValueError:
                 ctx.count("constructor-rejected")
                 continue
-            ch = Chain(mc)
+            if mc is None:
+                continue
+            ch = Chain(mc, given if isinstance(given, np.ndarray) or sparse.issparse(given) else None)
+            ch.check_cdfs(ctx)
+            pguard.check(ctx, "MarkovChain(P) / .cdfs", {"op": "MarkovChain", "P": repr(given)[:400]})
             for _ in range(ctx.n(3, 4)):
                 arg = gen_init(rng, n, ctx)
                 reps = rng.choice([None, None, None, 0, 1, 2, 3])
@@ -744,7 +998,17 @@ def run(ctx):
             vals = rng.sample("abcdefghijklmnopqrstuvwxyz", n)
             arr = np.array(vals)
         ctx.count("hist:labels:" + kind)
-        obj = arr if rng.random() < 0.6 or kind in ("int32",) else [x for x in arr.tolist()]
+        r = rng.random()
+        if r < 0.45 or kind in ("int32",):
+            obj = arr
+        elif r < 0.6:
+            big = np.concatenate([arr, arr])[np.repeat(np.arange(n), 2)]      # strided view of a larger array
+            obj = big[::2]
+            ctx.count("hist:labels-as-strided-view")
+        elif r < 0.75:
+            obj = tuple(arr.tolist())
+        else:
+            obj = [x for x in arr.tolist()]
         return obj, list(arr), [code_of(v) for v in arr]
 
     def value_arg(labels, codes, stale):
@@ -787,10 +1051,15 @@ def run(ctx):
         rows, dyadic = gen_matrix(rng, n, ctx)
         sp = rng.random() < 0.5
         try:
-            mc = MarkovChain(make_sparse(rng, rows, ctx) if sp else np.array(rows))
+            given = make_sparse(rng, rows, ctx) if sp else dense_form(rng, rows, ctx)
+            rows_eff = np.asarray(given.todense() if sparse.issparse(given) else given, dtype=float).tolist()
+            mc = construct(ctx, MarkovChain, given, rows_eff)
         except ValueError:
             continue
-        ch = Chain(mc)
+        if mc is None:
+            continue
+        ch = Chain(mc, given if isinstance(given, np.ndarray) or sparse.issparse(given) else None)
+        ch.check_cdfs(ctx)
         labelings = []                # earlier (labels, codes)
         cur = None                    # (obj, labels, codes) or None
         stale = []
@@ -831,6 +1100,7 @@ def run(ctx):
                     out = "set-ok"
                 except ValueError:
                     out = "ERR:ValueError"
+                KEEP.recheck(ctx, "an assignment to state_values")
                 if (out == "set-ok") != want_ok:
                     ctx.spec_fail("state_values_setter", "assignment of %r: %s" % (None if new == "none" else new[0], out),
                                   {"op": "state_values", "n": n, "value": repr(None if new == "none" else new[0])})
@@ -1025,16 +1295,33 @@ def run(ctx):
         else:
             Us = []
         uq = ([np.float64(u0)] if use_dist else []) + [np.array(Us, dtype=float).reshape(len(Us), ts - 1)]
-        P_arg = np.array(rows) if rng.random() < 0.7 else [list(r) for r in rows]
+        P_arg = dense_form(rng, rows, ctx)
+        if isinstance(P_arg, np.ndarray) and P_arg.dtype == np.float32:
+            P_arg = np.array(rows)             # (float32 accumulation is exercised through MarkovChain directly)
+        mstyles = ["keyword", "positional"]
+        if mode == "state" and x0 == 0:
+            mstyles.append("init-omitted")      # default init=0
+        mstyle = rng.choice(mstyles)
+        ctx.count("call-style:mcsp:" + mstyle)
+        mguard = Unchanged([("the matrix P", P_arg), ("the init argument", init_arg)])
+        mraws = []
 
         def call_mcsp(interpreted):
             rs = Planted(uniforms=list(uq))
+
+            def invoke():
+                if mstyle == "positional":
+                    return mc_sample_path(P_arg, init_arg, ts_obj, rs)
+                if mstyle == "init-omitted":
+                    return mc_sample_path(P_arg, sample_size=ts_obj, random_state=rs)
+                return mc_sample_path(P=P_arg, init=init_arg, sample_size=ts_obj, random_state=rs)
             try:
                 if interpreted:
                     with interpreted_kernels():
-                        X = mc_sample_path(P_arg, init=init_arg, sample_size=ts_obj, random_state=rs)
+                        X = invoke()
                 else:
-                    X = mc_sample_path(P_arg, init=init_arg, sample_size=ts_obj, random_state=rs)
+                    X = invoke()
+                mraws.append(X)
                 return np.asarray(X), canon_X(X), rs
             except ValueError:
                 return None, "ERR:ValueError", rs
@@ -1048,6 +1335,11 @@ def run(ctx):
         replay = {"op": "mc_sample_path", "P": [[x.hex() for x in r] for r in rows], "init": repr(init_arg),
                   "sample_size": repr(ts_obj), "u0": None if u0 is None else u0.hex(),
                   "uniforms": [u.hex() for u in U], "code": out}
+        mguard.check(ctx, "mc_sample_path", replay)
+        for r_ in mraws:
+            KEEP.aliases(ctx, "mc_sample_path", r_, [("the matrix P", P_arg), ("the init argument", init_arg)], replay)
+            KEEP.keep("mc_sample_path", r_)
+        KEEP.recheck(ctx, "mc_sample_path")
         if mode == "not-Integral":
             # the code takes the scalar for a one-point distribution (one extra uniform, start at state 0);
             # for an integer-valued 0-d array that is not what "scalar(int)" in the docstring promises
@@ -1091,6 +1383,40 @@ def run(ctx):
             line += ("dist=%s u0=%s" % (f1(dist), f1([u0]))) if use_dist else ("x0=%d" % x0)
             cases.append(Case(line, out, nontrivial=(X is not None and ts >= 2), tag="mcsp:" + sc))
 
+    # mc_sample_path with sample_size omitted (documented default 1000) and init omitted (default 0)
+    for _ in range(ctx.n(2, 10)):
+        n = rng.choice([2, 3, 5])
+        rows, _d = gen_matrix(rng, n, ctx)
+        try:
+            ch = Chain(MarkovChain(np.array(rows)))
+        except ValueError:
+            continue
+        U, s0 = [], 0
+        for t in range(999):
+            cols, p, cdf = ch.rows[s0]
+            u = plant_uniform(rng, p, cdf, ctx)
+            s0 = cols[ref_step(p, cdf, u)[0]]
+            U.append(u)
+        rs = Planted(uniforms=[np.array([U])])
+        X = np.asarray(mc_sample_path(np.array(rows), random_state=rs))
+        out = canon_X(X)
+        ctx.count("call-style:mcsp:all-defaults")
+        bad = None
+        if X.shape != (1000,) or rs.uq or rs.shape_mismatch:
+            bad = "shape %s / stream %s for the defaults init=0, sample_size=1000" % (X.shape, rs.shape_mismatch)
+        elif X[0] != 0:
+            bad = "default init: path starts at %d" % X[0]
+        else:
+            for t in range(999):
+                why = inv_cdf_ok(ch.rows[int(X[t])][1], ch.rows[int(X[t])][2], U[t], int(X[t + 1]))
+                if why:
+                    bad = "step %d: %s" % (t, why)
+                    break
+        if bad:
+            ctx.spec_fail("mc_sample_path_defaults", bad, {"op": "mc_sample_path", "P": [[x.hex() for x in r] for r in rows],
+                                                           "uniforms": [u.hex() for u in U[:50]]})
+        cases.append(Case("C10 mcsp sc=float P=%s ts=1000 u=%s x0=0" % (fxm(rows), fxm([U])), out, tag="mcsp:float"))
+
     # ---- DiscreteRV.draw and random.draw -------------------------------------------------------------
     for _ in range(ctx.n(400, 4000)):
         n = rng.choice([1, 2, 3, 4, 6, 7, 10])
@@ -1103,19 +1429,45 @@ def run(ctx):
             ctx.count("draw:u>=cdf[-1]", nfb)
         # DiscreteRV
         rs = Planted(uniforms=[np.array(us, dtype=float)])
+        qform = rng.choice(["list", "tuple", "array", "array", "strided-view", "float32"])
+        ctx.count("form:drv-q:" + qform)
+        q_obj = {"list": lambda: list(q), "tuple": lambda: tuple(q), "array": lambda: np.array(q),
+                 "strided-view": lambda: np.repeat(np.array(q), 2)[::2],
+                 "float32": lambda: np.array(q, dtype=np.float32)}[qform]()
+        f32 = qform == "float32"
+        if f32:
+            q = [float(x) for x in q_obj]              # the masses the object really holds
+            cdf = seq_cumsum_dt(q, np.float32)
+            us = [plant_uniform(rng, q, cdf, ctx) for _ in range(kdraw)]
+            rs = Planted(uniforms=[np.array(us, dtype=float)])
+        qguard = Unchanged([("the q argument", q_obj)])
         if rng.random() < 0.25:
             d = qe.DiscreteRV([1.0])            # then replace the vector through the setter
-            d.q = rng.choice([list, np.array])(q)
+            d.q = q_obj
             ctx.count("drv:q-setter")
         else:
-            d = qe.DiscreteRV(rng.choice([list, np.array])(q))
+            d = qe.DiscreteRV(q_obj)
+        Qguard = Unchanged([("DiscreteRV.Q", d.Q), ("DiscreteRV.q", d.q)])
         k_obj = count_form(rng, kdraw, ctx, "drv-k")
-        idx = d.draw(k=k_obj, random_state=rs)
+        dstyle = rng.choice(["keyword", "positional"] + (["k-omitted"] if kdraw == 1 else []))
+        ctx.count("call-style:drv:" + dstyle)
+        if dstyle == "positional":
+            idx = d.draw(k_obj, rs)
+        elif dstyle == "k-omitted":
+            idx = d.draw(random_state=rs)
+        else:
+            idx = d.draw(k=k_obj, random_state=rs)
         replay = {"op": "DiscreteRV.draw", "q": [x.hex() for x in q], "uniforms": [u.hex() for u in us],
-                  "code": np.asarray(idx).tolist()}
+                  "code": np.asarray(idx).tolist(), "q_form": qform, "k": repr(k_obj)}
+        qguard.check(ctx, "DiscreteRV(q).draw", replay)
+        Qguard.check(ctx, "DiscreteRV.draw", replay)
+        KEEP.aliases(ctx, "DiscreteRV.draw", idx, [("the q argument", q_obj), ("DiscreteRV.Q", d.Q), ("DiscreteRV.q", d.q)], replay)
+        KEEP.keep("DiscreteRV.draw", idx)
         Qc = [float(x) for x in d.Q]
         bad = None
-        if np.shape(idx) != (kdraw,) or rs.shape_mismatch or rs.uq:
+        if Qc != cdf:
+            bad = "Q is not the sequential cumulative sum of q"
+        elif np.shape(idx) != (kdraw,) or rs.shape_mismatch or rs.uq:
             bad = "shape %s for k=%r (uniforms: %s)" % (np.shape(idx), k_obj, rs.shape_mismatch or "%d arrays left" % len(rs.uq))
         else:
             for u, j in zip(us, idx):
@@ -1124,6 +1476,12 @@ def run(ctx):
                     break
         if bad:
             ctx.spec_fail("DiscreteRV_draw", bad, replay)
+        if f32:
+            cases.append(Case("C10 drv sc=float q=%s u=%s Q=%s" % (fxs(q), fxs(us), fxs(Qc)),
+                              "Q=%s|%s" % (fxs(Qc), ints(idx)), nontrivial=kdraw > 0, tag="drv-f32:float"))
+            dyadic = False
+            KEEP.recheck(ctx, "DiscreteRV.draw")
+            continue
         for sc in ["float"] + (["rat"] if dyadic else []):
             f1 = fxs if sc == "float" else rats
             cases.append(Case("C10 drv sc=%s q=%s u=%s" % (sc, f1(q), f1(us)),
@@ -1139,9 +1497,33 @@ def run(ctx):
         def fake_random(sz=None, _us=us):
             calls.append(sz)
             return (_us[0] if _us else 0.5) if sz is None else np.array(_us[:int(sz)], dtype=float)
-        cdf_arr = np.array(cdf)
-        with mock.patch.object(np.random, "random", fake_random):
-            got = qru.draw(cdf_arr, size_obj)
+        cform = rng.choice(["array", "array", "strided-view", "reversed-view", "tuple", "list"])
+        ctx.count("form:draw-cdf:" + cform)
+        if cform == "strided-view":
+            cdf_arr = np.repeat(np.array(cdf), 3)[::3]
+        elif cform == "reversed-view":
+            cdf_arr = np.array(cdf[::-1])[::-1]
+        elif cform == "tuple":
+            cdf_arr = tuple(cdf)
+        elif cform == "list":
+            cdf_arr = list(cdf)
+        else:
+            cdf_arr = np.array(cdf)
+        dguard = Unchanged([("the cdf argument", cdf_arr)])
+        import warnings
+        with mock.patch.object(np.random, "random", fake_random), warnings.catch_warnings():
+            warnings.simplefilter("ignore")          # (Numba's reflected-list deprecation warning)
+            if size_obj is None and rng.random() < 0.5:
+                got = qru.draw(cdf_arr)              # size omitted
+            elif rng.random() < 0.3:
+                got = qru.draw(cdf=cdf_arr, size=size_obj)
+            else:
+                got = qru.draw(cdf_arr, size_obj)
+        dguard.check(ctx, "random.draw", {"op": "random.draw", "cdf": [x.hex() for x in cdf]})
+        if cform in ("list", "tuple") and list(cdf_arr) != cdf:
+            ctx.spec_fail("input_modified", "random.draw modified the cdf %s" % cform, {"op": "random.draw"})
+        KEEP.aliases(ctx, "random.draw", got, [("the cdf argument", cdf_arr)], {"op": "random.draw"})
+        KEEP.keep("random.draw", got)
         bad = None
         if size is not None and np.shape(got) != (size,):
             # every numbers.Integral size asks for an array of that many draws (fix c73be8b)
@@ -1162,6 +1544,58 @@ def run(ctx):
             f1 = fxs if sc == "float" else rats
             cases.append(Case("C10 draw sc=%s cdf=%s u=%s" % (sc, f1(cdf), f1(ul)), ints(gl),
                               nontrivial=len(ul) > 0, tag="draw:" + sc))
+    # ---- histories on one DiscreteRV object: draws interleaved with assignments to .q -----------------
+    for _ in range(ctx.n(100, 1000)):
+        def new_q():
+            n = rng.choice([1, 2, 3, 4, 7])
+            q, _d = gen_row(rng, n, ctx)
+            f = rng.choice(["list", "tuple", "array", "strided-view"])
+            obj = {"list": lambda: list(q), "tuple": lambda: tuple(q), "array": lambda: np.array(q),
+                   "strided-view": lambda: np.repeat(np.array(q), 2)[::2]}[f]()
+            return q, obj
+        q, q_obj = new_q()
+        q0 = q
+        d = qe.DiscreteRV(q_obj)
+        held = [("the q argument", q_obj)]
+        ops, outs = [], []
+        for oi in range(rng.randint(3, 8)):
+            if rng.random() < 0.3:
+                q, q_obj = new_q()
+                d.q = q_obj
+                held.append(("an assigned q", q_obj))
+                ops.append("o%d.kind=set o%d.q=%s" % (oi, oi, fxs(q)))
+                outs.append("set-ok")
+                ctx.count("drvhist:set")
+                KEEP.recheck(ctx, "an assignment to DiscreteRV.q")
+                continue
+            cdf = seq_cumsum(q)
+            kd = rng.choice([0, 1, 1, 2, 5])
+            us = [plant_uniform(rng, q, cdf, ctx) for _ in range(kd)]
+            rs = Planted(uniforms=[np.array(us, dtype=float)])
+            g = Unchanged(held + [("DiscreteRV.Q", d.Q), ("DiscreteRV.q", d.q)])
+            idx = d.draw(random_state=rs) if kd == 1 and rng.random() < 0.4 else d.draw(count_form(rng, kd, ctx, "drv-k"), rs)
+            rep = {"op": "DiscreteRV history", "q_now": [x.hex() for x in q], "uniforms": [u.hex() for u in us],
+                   "code": np.asarray(idx).tolist(), "n_earlier_ops": oi}
+            g.check(ctx, "DiscreteRV.draw", rep)
+            KEEP.aliases(ctx, "DiscreteRV.draw", idx, held + [("DiscreteRV.Q", d.Q), ("DiscreteRV.q", d.q)], rep)
+            KEEP.keep("DiscreteRV.draw", idx)
+            KEEP.recheck(ctx, "DiscreteRV.draw")
+            bad = None
+            if [float(x) for x in d.Q] != cdf or [float(x) for x in np.asarray(d.q)] != q:
+                bad = "q / Q of the object are not the CURRENT vector and its cumulative sum"
+            elif np.shape(idx) != (kd,) or rs.shape_mismatch or rs.uq:
+                bad = "shape %s for k=%d" % (np.shape(idx), kd)
+            else:
+                for u, j in zip(us, idx):
+                    bad = bad or inv_cdf_ok(q, cdf, u, int(j))
+            if bad:
+                ctx.spec_fail("DiscreteRV_history", bad, rep)
+            ops.append("o%d.kind=draw o%d.u=%s" % (oi, oi, fxs(us)))
+            outs.append(ints(idx))
+            ctx.count("drvhist:draw")
+        cases.append(Case("C10 drvhist sc=float q0=%s nops=%d %s" % (fxs(q0), len(ops), " ".join(ops)), " ## ".join(outs),
+                          tag="drvhist"))
+
     # random.draw(cdf, size) with `size` a NumPy integer (Python-level entry)
     for _ in range(ctx.n(80, 500)):
         n = rng.choice([2, 3, 7])
